@@ -13,6 +13,10 @@ pub(crate) use timezone::TimeZone;
 mod parser;
 mod rule;
 
+#[cfg(feature = "verif-hooks")]
+#[allow(unreachable_pub, missing_docs)]
+pub(crate) mod verif;
+
 /// Unified error type for everything in the crate
 #[derive(Debug)]
 pub(crate) enum Error {
